@@ -373,4 +373,51 @@ def rule_g(prog, rep):
     rep.floor('C20.g', n, 15, 'answers with a nested Result')
 
 
-RULES = [('C20.g', rule_g), ('C20.a', rule_a), ('C20.b', rule_b), ('C20.c', rule_c), ('C20.d', rule_d), ('C20.e', rule_e), ('C20.f', rule_f)]
+NOT_CANCEL_SAFE = ('read_line', 'read_until', 'read_exact', 'read_to_end', 'read_to_string', 'read_u8', 'read_u16', 'read_u32', 'read_u64',
+                   'write_all', 'write_all_buf', 'copy', 'copy_buf')
+
+
+def rule_h(prog, rep):
+    rep.rule('C20.h', 'call graph + T1', "the receive branch of the client's run loop is cancel safe: receive_msg is one branch of a "
+             'tokio::select! next to the command queue, so its future is dropped whenever a command arrives first; everything it '
+             'awaits must keep a partly read line across such a drop (Lines::next_line, a stream\'s next()) - read_line / '
+             'read_until / read_exact into a buffer owned by the future lose the bytes already consumed, the rest of the line '
+             'then fails to decode and every call in flight resolves with an error instead of its answer')
+    from ..callgraph import CallGraph
+    cg = CallGraph(prog, [CLIENT, COMMON])
+    crate = prog.crate(CLIENT)
+    # entry points: calls of ..::receive_msg made from inside a select! expansion of the client
+    entries = set()
+    for f in crate.top_fns():
+        for b_ in [f] + crate.closures_of(f):
+            for nd, anc in walk(b_.hir):
+                if nd.get('k') == 'call' and short(callee(nd)) == 'receive_msg':
+                    in_select = any('select' in m for a in list(anc) + [nd] if isinstance(a, dict) for m in (a.get('x') or []))
+                    futs = any(isinstance(a, dict) and a.get('k') == 'let' and a['pat'].get('name') == 'futures_init' for a in anc)
+                    if in_select or futs:
+                        t = cg.resolve(CLIENT, callee(nd))
+                        if t:
+                            entries.add(t)
+    if not entries:
+        raise AnchorMissing('a receive_msg call inside a select! of the client')
+    seen = cg.reachable(sorted(entries))
+    n = 0
+    for name in sorted(seen):
+        cn, f = cg.fns[name]
+        c2 = cg.crates[cn]
+        for b_ in [f] + c2.closures_of(f):
+            for nd, anc in walk(b_.hir):
+                if nd.get('k') != 'call':
+                    continue
+                sh = short(callee(nd))
+                if ('AsyncBufReadExt' in callee(nd) or 'AsyncReadExt' in callee(nd) or 'AsyncWriteExt' in callee(nd) or 'tokio::io' in callee(nd)) and sh in NOT_CANCEL_SAFE:
+                    rep.violation('C20.h', f'{short(name)}:{sh}', loc(f, nd), f'{callee(nd)} is awaited inside the select! receive branch (via '
+                                  f'{" -> ".join(cg.path_to(seen, name)[-3:])}): not cancel safe', key=f'C20.h/{short(name)}/{sh}')
+                elif sh in ('next_line', 'next', 'recv', 'try_next'):
+                    n += 1
+    if n:
+        rep.ok('C20.h', 'receive-branch', '', f'{len(seen)} functions reachable from the receive branch; {n} awaits, all on cancel-safe primitives (next_line / next / recv)')
+    rep.floor('C20.h', n, 3, 'cancel-safe read primitives reachable from the receive branch')
+
+
+RULES = [('C20.h', rule_h), ('C20.g', rule_g), ('C20.a', rule_a), ('C20.b', rule_b), ('C20.c', rule_c), ('C20.d', rule_d), ('C20.e', rule_e), ('C20.f', rule_f)]
